@@ -80,6 +80,26 @@ pub fn canon(v: &Value) -> String {
       els.sort();
       format!("set:{}:n{}:{{{}}}", s.kind, s.num_elements, els.join("|"))
     }
+    Value::Table(t) => {
+      let t = t.borrow();
+      let mut cols: Vec<String> = vec![];
+      for (id, (kind, col)) in t.data.iter() {
+        let name = t.col_names.get(id).cloned().unwrap_or(format!("#{}", id));
+        let vals: Vec<String> = col.as_vec().iter().map(|x| canon(x)).collect();
+        cols.push(format!("{}<{}>={}", name, kind, vals.join(",")));
+      }
+      format!("table:{}x{}:[{}]", t.rows, t.cols, cols.join(";"))
+    }
+    Value::Record(r) => {
+      let r = r.borrow();
+      let mut cols: Vec<String> = vec![];
+      for (i, (id, v)) in r.data.iter().enumerate() {
+        let name = r.field_names.get(id).cloned().unwrap_or(format!("#{}", id));
+        let kind = r.kinds.get(i).map(|k| format!("{}", k)).unwrap_or("?".into());
+        cols.push(format!("{}<{}>={}", name, kind, canon(v)));
+      }
+      format!("record:[{}]", cols.join(";"))
+    }
     Value::Tuple(t) => { let t = t.borrow(); format!("tup:({})", t.elements.iter().map(|x| canon(x)).collect::<Vec<_>>().join(";")) }
     Value::Atom(a) => { let a = a.borrow(); let id = (a.0).0; let d = (a.0).1.borrow(); format!("atom:{}", d.get(&id).cloned().unwrap_or(format!("#{}", id))) }
     Value::Empty => "empty".to_string(),
